@@ -409,3 +409,6 @@ def run(rep, program: Program, tier: str) -> None:
     # a state restored from a pickle / deep copy must keep invalidating its cached constraint values, or the
     # projection solvers read a stale zero residual and return off the manifold (shared with C09-R5)
     rep.isolate(c09.rule_r5, rep, program, prop=PROP, rule="R8")
+    # "otherwise it raises a convergence error": value and linear-algebra errors inside the projection solvers'
+    # iterations are converted, none escapes as a foreign exception (shared with C12-R3)
+    rep.isolate(c12.rule_r3, rep, program, et, prop=PROP, rule="R9", only_projection=True)
